@@ -3,7 +3,10 @@
 Engine E2: the real IteratorQueue runs under the deterministic scheduler with
 pre-emption at every synchronisation operation and at statement boundaries of
 the anchored functions.  Oracle: offline checker on the recorded event log
-(unique ids per produced element) + exact deadlock detection.
+(unique ids per produced element) + exact deadlock detection.  Besides the blocking
+operations the cases cover timeouts firing mid-stream (timing variants), one side using
+the public non-blocking operation in a loop (polling variants) and, on native threads,
+AsyncIteratorQueue incl. producers handed over as awaitables (awaitable variants).
 """
 
 from __future__ import annotations
@@ -28,7 +31,17 @@ RULE = (
     'only turn up once the producers returned, on a bounded buffer, with and without '
     'ignore_error, or (b) the sources sleep before 1-2 elements and the consumers (any mode, '
     'one forced to get_batch(k, block=True)) retry after a TimeoutError; oracle: no produced '
-    'element vanishes without a reported error')
+    'element vanishes without a reported error. Polling variants of every configuration '
+    '(vlib/qwork.poll_variants): one side uses the public non-blocking operation in a loop - one '
+    'or all consumers only call get_nowait() (queue.Empty = try again) against producers blocking '
+    'in put() on a bounded buffer of 1-3 (at least one source longer than the buffer) or on the '
+    'capacity as generated; all producers call put_nowait() (queue.Full = try again; the last one '
+    'closes the stream with maybe_stop(), at once or once the buffer was emptied) against blocking '
+    'consumers of any mode; or both sides poll; same oracle as the fault-free cases + exact '
+    'deadlock detection. Native async cases additionally with producers handed to '
+    'async_enqueue_from_iterator as AWAITABLES resolving to the source (iterator or plain async '
+    'iterable, with a return value) after 0-100 event-loop yields or 0-20 ms, 1-4 producers, '
+    'oracle with return values')
 ASSUMPTIONS = [
     'with several producers max_enqueuer is preset to the producer count (as piter_multiplex does); discovery is only valid for one producer',
     'Condition.notify wakes waiters in FIFO order and there are no spurious wake-ups (CPython behaviour)',
@@ -37,11 +50,19 @@ ASSUMPTIONS = [
     'the raw queue.Queue/SimpleQueue/asyncio.Queue objects are trusted and used through their non-blocking methods only',
     'timing variants: a sleeping thread is a timed wait that never becomes enabled; which of several pending timed waits (sleeps, queue timeouts) expires first under global starvation is a seeded choice, i.e. a sleep may be shorter or longer than the timeout; TimeoutErrors are expected there and are not verdicts',
     'timing variants: a consumer retries a dequeue that raised TimeoutError as long as queue.exception is None (at most 40 times, then it ends with the TimeoutError); a run in which any producer raised, the queue recorded an exception or a consumer ended with an exception counts as reported and is not checked for completeness',
-    'timing variants: put / put_nowait / get_nowait of the queue instance are wrapped by pass-through recorders (used only to attribute a loss to its call site)',
+    'timing and polling variants: put() of the queue instance and the raw buffer object (get_nowait / put_nowait / empty) are wrapped by pass-through recorders (used only to attribute a loss or a starved peer to its call site, never for the verdict)',
+    'polling variants: a poller that got queue.Empty / queue.Full polls again once the outcome of the poll can have changed (buffer non-empty, queue done or exhausted / buffer not full): equivalent to spinning, but a spinner cannot starve the schedule or mask a deadlock; at most 400 polls per element (a case that hits the bound is inconclusive)',
+    'polling variants: producers that put_nowait() are not registered enqueuers (max_enqueuer unset, no return values); the end of the stream is the public maybe_stop() issued by the last of them after its last element was put, immediately or once the buffer is empty; blocking and polling producers are never mixed on one queue (the queue cannot know an unregistered producer is still running)',
+    'polling variants: a timed wait (timeout configured) of the blocking peer can only expire under global starvation, i.e. when every poller waits for a change of the buffer: such a TimeoutError in a fault-free run is a violation as in the base cases',
+    'awaitable variants (native threads): the coroutines of all producers are started in the same event-loop iteration before any consumer; a case that does not complete within its watchdog (4 s, cases take milliseconds) is run again with twice the watchdog; one expiry is inconclusive, two are a violation keyed by scenario + recorded final state; after one confirmed hang in a chunk its remaining bounded-buffer cases are skipped (counter async_awaitable_bounded_cases_skipped_after_hang)',
 ]
 REQUIRED = ['async_cases', 'schedules', 'line_preemptions', 'lock_ops', 'cond_waits', 'recv_events',
             'shim_threading_installed', 'timing_cases', 'timing_timeouts_fired', 'timing_naps',
-            'timing_consumer_retries', 'timing_put_timeouts', 'timing_complete_streams']
+            'timing_consumer_retries', 'timing_put_timeouts', 'timing_complete_streams',
+            'poll_cases', 'poll_consumer_polls', 'poll_producer_polls', 'poll_both_poll',
+            'poll_get_nowait_calls', 'poll_put_nowait_calls', 'poll_empty_seen', 'poll_full_seen',
+            'poll_close_after_drain', 'async_awaitable_cases', 'async_awaitables_resolved',
+            'async_return_values_seen']
 CHUNK_TIMEOUT_S = {'quick': 300, 'thorough': 3000}
 
 MODES = ['get', 'get', 'batch_nb:1', 'batch_nb:2', 'batch_nb:3',
@@ -70,11 +91,19 @@ def gen_config(rng):
 def plan(tier, seed):
   n_cfg, n_sched = (160, 120) if tier == 'quick' else (1600, 600)
   chunks = 32 if tier == 'quick' else 64
-  return [{'chunk': i, 'chunks': chunks, 'n_cfg': n_cfg, 'n_sched': n_sched,
-           'n_tsched': 4 if tier == 'quick' else 16,
-           'rseed': seed} for i in range(chunks)] + [
-      {'mode': 'async', 'chunk': j, 'rseed': seed,
-       'n': 120 if tier == 'quick' else 4000} for j in range(2 if tier == 'quick' else 8)]
+  sched = [{'chunk': i, 'chunks': chunks, 'n_cfg': n_cfg, 'n_sched': n_sched,
+            'n_tsched': 4 if tier == 'quick' else 16,
+            'n_psched': 6 if tier == 'quick' else 24,
+            'rseed': seed} for i in range(chunks)]
+  awaitable = [{'mode': 'async_awaitable', 'chunk': j, 'rseed': seed,
+                'n': 80 if tier == 'quick' else 1500}
+               for j in range(2 if tier == 'quick' else 8)]
+  plain_async = [{'mode': 'async', 'chunk': j, 'rseed': seed,
+                  'n': 120 if tier == 'quick' else 4000}
+                 for j in range(2 if tier == 'quick' else 8)]
+  # Awaitable chunks in the first wave: a case that hangs costs two watchdogs of idle
+  # wall-clock (after one scheduler chunk, so that the first witnesses are of both engines).
+  return sched[:1] + awaitable + sched[1:] + plain_async
 
 
 def run_one(ctx, case):
@@ -95,7 +124,7 @@ def run_one(ctx, case):
     fn = site.split(':')[0]
     if fn == '_release_and_notify':
       ctx.count('preempt_in_release_and_notify', n)
-    elif fn == 'get_nowait':
+    elif fn.lstrip('_') == 'get_nowait':
       ctx.count('preempt_in_get_nowait', n)
   cfg_key = {k: v for k, v in case.items() if k not in ('sched_seed',)}
   nontrivial = (case['P'] + case['C'] >= 2) and sched.line_preemptions >= 1
@@ -105,6 +134,8 @@ def run_one(ctx, case):
     return
   if case.get('scn'):
     return check_timing(ctx, case, sched, log, info)
+  if case.get('pollcls'):
+    return check_poll(ctx, case, sched, log, info)
   problems = qwork.analyse(case, sched, log)
   for kind, detail in problems:
     ctx.violation(kind, case, {'detail': detail, 'log_tail': log[-25:]},
@@ -134,6 +165,48 @@ def check_timing(ctx, case, sched, log, info, prefix=''):
       mech = f'{prefix}{case["scn"]}:queue-{kind}{qwork.deadlock_sites(kind, detail)}'
     ctx.violation(kind, case, {'detail': detail, 'log_tail': log[-30:]}, mechanism=mech)
   if len(ctx.samples) < 5 and ctx.counters.get('timing_cases', 0) <= 2:
+    ctx.sample({'case': case, 'events': log[:40]})
+
+
+_WITNESSED = set()
+
+
+def report_once_per_class(ctx, kind, case, detail, mech):
+  """One replayable witness per (kind, mechanism) and chunk; every occurrence is counted.
+
+  The polling / awaitable variants hit a root cause in a large share of their cases: the
+  runner keeps the first witnesses it sees, which would all be of one class.
+  """
+  ctx.count('viol:' + mech)
+  if (kind, mech) in _WITNESSED:
+    return
+  _WITNESSED.add((kind, mech))
+  ctx.violation(kind, case, detail, mechanism=mech)
+
+
+def check_poll(ctx, case, sched, log, info):
+  """Oracle + counters of one polling-variant schedule (vlib/qwork.poll_variants)."""
+  from vlib import qwork
+  st = info['state']
+  ctx.count('poll_cases')
+  ctx.count('poll_' + case['pollcls'])
+  ctx.count('poll_get_nowait_calls', st['get_nowait_calls'])
+  ctx.count('poll_put_nowait_calls', st['put_nowait_calls'])
+  ctx.count('poll_empty_seen', st['empty_seen'])
+  ctx.count('poll_full_seen', st['full_seen'])
+  if any(e[0] == 'close_wait' for e in log):
+    ctx.count('poll_close_after_drain')
+  if st['poll_bound_hit']:
+    # A poller gave up: nothing can be said about completeness.
+    ctx.inconclusive_case('poll bound hit', case)
+    return
+  problems, ev = qwork.analyse_poll(case, sched, log)
+  if not problems:
+    ctx.count('poll_complete_streams')
+  for kind, detail, mech in problems:
+    report_once_per_class(ctx, kind, case,
+                          {'detail': detail, 'evidence': ev, 'log_tail': log[-30:]}, mech)
+  if len(ctx.samples) < 6 and ctx.counters.get('poll_cases', 0) <= 2:
     ctx.sample({'case': case, 'events': log[:40]})
 
 
@@ -172,9 +245,79 @@ def run_async_one(ctx, case):
                   mechanism=f'async-queue-{kind}')
 
 
+AWAITABLE_WATCHDOG_S = 4.0
+
+
+def gen_awaitable_case(rng):
+  """Some producers hand the queue an awaitable that resolves to their source later."""
+  P = rng.choice([1, 2, 2, 3, 3, 4])
+  lens = [rng.randint(0, 5) for _ in range(P)]
+  C = rng.choice([1, 2, 3])
+
+  def lateness():
+    if rng.random() < 0.5:
+      return ['yields', rng.choice([0, 1, 2, 5, 10, 30, 100])]
+    return ['sleep', rng.choice([0.0, 0.0005, 0.002, 0.005, 0.02])]
+
+  late = [lateness() if rng.random() < 0.5 else None for _ in range(P)]
+  if not any(late):
+    late[rng.randrange(P)] = lateness()
+  return {'engine': 'async', 'scn': 'awaitable', 'P': P, 'lens': lens, 'C': C,
+          'cap': rng.choice([0, 0, 1, 2, 3]), 'late': late,
+          'iterables': [rng.random() < 0.3 for _ in range(P)],
+          'modes': [rng.choice(['async', 'get', 'batch', 'batch_b']) for _ in range(C)],
+          'delay_seed': rng.randrange(1 << 20), 'watchdog_s': AWAITABLE_WATCHDOG_S}
+
+
+def run_awaitable_chunk(ctx, spec):
+  rng = random.Random(spec['rseed'] * 9176 + spec['chunk'] * 131 + 7)
+  hung = False
+  for _ in range(spec['n']):
+    case = gen_awaitable_case(rng)
+    if hung and case['cap']:
+      # Every further hang costs two watchdogs of wall-clock; only a producer parked on a
+      # full bounded buffer can hang here: one witness per chunk, the unbounded cases go on.
+      ctx.count('async_awaitable_bounded_cases_skipped_after_hang')
+      continue
+    if run_awaitable_one(ctx, case) == 'hang':
+      hung = True
+
+
+def run_awaitable_one(ctx, case):
+  """Watchdog + one retry: one expiry is inconclusive, two are a violation."""
+  from vlib import aqwork
+  w = case.get('watchdog_s', 30)
+  ctx.count('async_awaitable_cases')
+  ctx.count('async_awaitable_producers', sum(1 for x in case['late'] if x))
+  ctx.case(('async', case), case['P'] + case['C'] >= 3)
+  finished, log = aqwork.run_async_case(case, w)
+  if not finished:
+    finished, log = aqwork.run_async_case(case, 2 * w)
+    if not finished:
+      report_once_per_class(ctx, 'no_completion_within_watchdog', case,
+                            {'final_state': aqwork._final(log), 'log_tail': log[-20:]},  # pylint: disable=protected-access
+                            aqwork.classify_hang(case, log))
+      return 'hang'
+    ctx.inconclusive_case('async awaitable case hit the watchdog once', case)
+  ctx.count('async_recv_events', sum(1 for e in log if e[0] == 'recv'))
+  ctx.count('async_awaitables_resolved', sum(1 for e in log if e[0] == 'resolved'))
+  ctx.count('async_return_values_seen',
+            sum(len(e[3]) for e in log if e[0] == 'end' and e[2] == 'stop'))
+  problems = aqwork.analyse_awaitable(case, log)
+  if not problems:
+    ctx.count('async_awaitable_complete_streams')
+  for kind, detail, mech in problems:
+    report_once_per_class(ctx, kind, case,
+                          {'detail': detail, 'resolved_after_queue_counted_as_done':
+                           aqwork.premature_end(case, log), 'log_tail': log[-20:]}, mech)
+  return 'done'
+
+
 def run_chunk(ctx, spec):
   if spec.get('mode') == 'async':
     return run_async_chunk(ctx, spec)
+  if spec.get('mode') == 'async_awaitable':
+    return run_awaitable_chunk(ctx, spec)
   rng = random.Random(spec['rseed'] * 1000003 + 17)
   configs = [gen_config(rng) for _ in range(spec['n_cfg'])]
   mine = [c for i, c in enumerate(configs) if i % spec['chunks'] == spec['chunk']]
@@ -200,9 +343,22 @@ def run_chunk(ctx, spec):
         case['p_line'] = [0.05, 0.15, 0.4, 0.0][r]
         case['p_sync'] = [0.3, 0.5, 0.7, 0.0][r]
         run_one(ctx, case)
+  prng = random.Random(spec['rseed'] * 7919 + spec['chunk'] + 6006)
+  for cfg in mine:
+    for variant in qwork.poll_variants(cfg, prng):
+      for j in range(spec.get('n_psched', 6)):
+        case = dict(variant)
+        case['sched_seed'] = prng.randrange(1 << 30)
+        r = j % 4
+        case['strategy'] = 'pct' if r == 3 else 'random'
+        case['p_line'] = [0.05, 0.15, 0.4, 0.0][r]
+        case['p_sync'] = [0.3, 0.5, 0.7, 0.0][r]
+        run_one(ctx, case)
 
 
 def run_case(ctx, case):
+  if case.get('engine') == 'async' and case.get('scn') == 'awaitable':
+    return run_awaitable_one(ctx, case)
   if case.get('engine') == 'async':
     return run_async_one(ctx, case)
   run_one(ctx, case)
